@@ -141,6 +141,8 @@ def violates(w, r):
         return True, 'exit status %r != expected %r' % (r['rc'], w['expect_rc'])
     if 'expect_no_file' in w and w['expect_no_file'] in r.get('listing', []):
         return True, 'file %r was created' % w['expect_no_file']
+    if 'expect_stderr_contains' in w and w['expect_stderr_contains'] not in r['stderr']:
+        return True, 'stderr %r does not contain %r' % (r['stderr'][:200], w['expect_stderr_contains'])
     if 'expect_stderr_not' in w and w['expect_stderr_not'] in r['stderr']:
         return True, 'stderr contains %r' % w['expect_stderr_not']
     return False, 'behaves as expected'
